@@ -56,9 +56,9 @@ def roles(ctx):
     if len(node) != 1:
         raise FailClosed("node struct (an open file with its metadata) not found uniquely")
     R["node"] = node[0]["path"]
-    # validator: crate-local fn (&str) -> Result<(), &str>
+    # validator: crate-local fn (&str) -> Result<(), _> (the error may be a message or an already built io::Error)
     val = [n for n, b in ctx.facts.bodies.items() if b["kind"] == "fn" and b["arg_count"] == 1 and b["locals"][1]["s"] == "&str"
-           and b["locals"][0]["s"].startswith("std::result::Result<(), &")]
+           and b["locals"][0]["s"].startswith("std::result::Result<(), ")]
     if len(val) != 1:
         raise FailClosed("path validator (&str -> Result<(), &str>) not found uniquely: %r" % val)
     R["validate"] = val[0]
